@@ -26,7 +26,7 @@ def run(S):
     f = S.fn('check_incoming_htlc_cltv')
     mem = {}
     h, out, cltv, d = E.sym('h', 'u32'), E.sym('out', 'u32'), E.sym('cltv', 'u32'), E.sym('d', 'u16')
-    rv, g = E.call_fn(f, [h, out, cltv, d], True, mem)
+    rv = S.call(E, f, [h, out, cltv, d], mem)
     ok = is_ok(rv)
     reason = err_payload(rv).d
     pre = [h.t < (1 << 31)]
@@ -65,7 +65,7 @@ def run(S):
     mem = {}
     part = E.sym('part', f.params[0][1], mem)
     hh = E.sym('height', 'u32')
-    rv, g = E.call_fn(f, [part, hh], True, mem)
+    rv = S.call(E, f, [part, hh], mem)
     pv = X.Engine.read_path(E, mem[part.cell], (), mem, True, 'spec')
     exp = field(E, D, 'MppPart', 'cltv_expiry', pv, 'u32')
     # a final-hop HTLC is only accepted with cltv_expiry > height + HTLC_FAIL_BACK_BUFFER at receipt
